@@ -35,6 +35,11 @@ _STR_METHODS = {"encode", "decode", "lower", "upper", "strip", "lstrip", "rstrip
                 "format", "isascii", "startswith", "endswith", "partition", "rpartition", "find", "rfind", "isdigit"}
 
 
+def _walk(t):
+    from .terms import walk
+    return walk(t)
+
+
 class Folder:
     def __init__(self, model: Model, leaves: dict | None = None):
         self.model = model
@@ -181,6 +186,26 @@ class Folder:
                 return getattr(recv, f[2])(*a, **kw)
             except Exception as e:
                 raise CannotFold(f"{f[2]}: {e!r}")
+        if f[0] == "attr" and f[2] == "escape" and f[1][0] == "ext" and f[1][1] == "re" and len(args) == 1 and not kwargs:
+            import re
+            a = self.fold(args[0])
+            if not isinstance(a, str):
+                raise CannotFold("re.escape of a non-str")
+            return re.escape(a)
+        if f[0] == "attr" and f[1] == ("builtin", "dict") and f[2] == "fromkeys" and 1 <= len(args) <= 2 and not kwargs:
+            keys = self.fold(args[0])
+            val = self.fold(args[1]) if len(args) == 2 else None
+            try:
+                return dict.fromkeys(keys, val)
+            except Exception as e:
+                raise CannotFold(f"dict.fromkeys: {e!r}")
+        if f[0] == "attr" and f[1] == ("builtin", "str") and f[2] == "maketrans" and 1 <= len(args) <= 3 and not kwargs:
+            try:
+                return str.maketrans(*[self.fold(a) for a in args])
+            except CannotFold:
+                raise
+            except Exception as e:
+                raise CannotFold(f"str.maketrans: {e!r}")
         if f[0] == "attr" and f[2] == "compile" and f[1][0] == "ext" and f[1][1] == "re":
             a = [self.fold(x) for x in args]
             flags = 0
@@ -205,8 +230,52 @@ class Folder:
         except Exception as e:
             raise CannotFold(f"item: {e!r}")
 
+    def f_mut(self, t):
+        """A list built by in-place updates: the literal start value with the updates replayed on a copy."""
+        base = self.fold(t[1])
+        if not isinstance(base, list):
+            raise CannotFold(f"in-place update of a {type(base).__name__}")
+        out = list(base)
+        args = [None if (a[0] == "slice") else self.fold(a) for a in t[3]]
+        try:
+            if t[2] in ("append", "extend", "insert", "reverse", "sort", "pop", "clear", "remove"):
+                getattr(out, t[2])(*args)
+            elif t[2] == "setitem" and t[3][0][0] != "slice":
+                out[args[0]] = args[1]
+            elif t[2] == "delitem" and t[3][0][0] != "slice":
+                del out[args[0]]
+            else:
+                raise CannotFold(f"list update {t[2]}")
+        except CannotFold:
+            raise
+        except Exception as e:
+            raise CannotFold(f"list update {t[2]}: {e!r}")
+        return out
+
     def f_comp(self, t):
-        raise CannotFold("comprehension")
+        """A comprehension over one constant iterable whose element expression has a single form: evaluated element by
+        element (the element term is bound as a leaf)."""
+        kind, elts, iters = t[1], t[2], t[3]
+        filters = t[4] if len(t) > 4 else ()
+        if len(iters) != 1 or len(elts) != 1:
+            raise CannotFold("comprehension with several generators / element forms")
+        elems = {x for part in (elts, filters) for e in part for x in _walk(e) if x[0] == "elem" and x[1] == iters[0]}
+        if len(elems) > 1:
+            raise CannotFold("comprehension element bound several times")
+        seq = self.fold(iters[0])
+        out = []
+        for x in seq:
+            sub = Folder(self.model, {**self.leaves, **{el: x for el in elems}})
+            if all(sub.fold(f) for f in filters):
+                out.append(sub.fold(elts[0]))
+        if kind == "dict":
+            return {k_: v_ for k_, v_ in out}
+        if kind == "set":
+            return frozenset(out)
+        return out
+
+    def f_elem(self, t):
+        raise CannotFold("element of an iteration (outside its comprehension)")
 
 
 _MOD_CACHE: dict = {}
